@@ -1103,6 +1103,7 @@ def r03t(an, rep, rule="R03.T"):
         ("pins out of order", None, [("b", 1), ("a", 0), ("c", None)], [1, 0, 2], ("a", "b", "c")),
         ("two entries with one key pinned apart, then a new entry", keyf, [(T1, 0), (T1b, 1), ("u", None)], [0, 1, 2], (T1, T1b, "u")),
         ("1 and True are different entries", lambda v: (type(v).__name__, v), [(1, None), (True, None), (1, None)], [0, 1, 0], (1, True)),
+        ("entries whose hashes collide (hash(-1) == hash(-2))", None, [(-1, None), (-2, None), (-1, None), (-2, None)], [0, 1, 0, 1], (-1, -2)),
         ("a pin that leaves a gap", None, [("a", None), ("q", 5)], [0, 5], RAISE),
         ("two different entries pinned at one position", None, [("a", 0), ("b", 0)], [0, RAISE], None),
         ("a new entry after a pinned first position", None, [("p", 0), ("a", None), ("b", None)], [0, 1, 2], ("p", "a", "b")),
